@@ -1,6 +1,7 @@
 // Package c18conc runs the concurrent leg of the C18 monitor (see package
 // c18) under the race detector: several clients use one built schema at the
-// same time, each with its own argument values.
+// same time, each with its own argument values. Only compile-time args structs
+// and ordinary closures are used here (no reflect.StructOf / reflect.MakeFunc).
 package c18conc
 
 import (
@@ -15,5 +16,5 @@ func TestCheck(t *testing.T) {
 	defer run.Finish()
 	c18.Describe(run)
 	n := run.N(1500, 60000)
-	run.Each(n, 2, func(i int) { c18.ConcurrentCase(run, i) })
+	run.Each(n, 2, func(i int) { c18.ConcurrentCase(run, i, true) })
 }
